@@ -281,6 +281,32 @@ func (s *Session) Churn(nNodes, nSpare, steps int) {
 		s.Do("new", U(j))
 	}
 	s.Repair(members, 6)
+	// directed prologue (always on back-ends that track keys separately from data, sometimes on memory): a
+	// prefix-only key shrinks from two children to one, then a node whose id is the key's hash joins and takes the
+	// key over; the surviving child must move with it (read sweeps of afterChange)
+	if s.R.Backend == "sqlite" || rng.Chance(30) {
+		k := Pick(rng, KeyTokens)
+		h := HashOf(k)
+		dup := false
+		for _, x := range ids {
+			dup = dup || x == h
+		}
+		if !dup && len(members) > 0 {
+			c1, c2 := ChildTokens[rng.Intn(len(ChildTokens))], ChildTokens[rng.Intn(len(ChildTokens))]
+			if c1 != c2 {
+				s.Do("pappend", U(Pick(rng, members)), k, U(h), c1)
+				s.Do("pappend", U(Pick(rng, members)), k, U(h), c2)
+				s.Do("premove", U(Pick(rng, members)), k, U(h), c1)
+				ids = append(ids, h)
+				s.Do("new", U(h))
+				if s.Do("join", U(h), U(Pick(rng, members))) == "ok" {
+					members = append(members, h)
+				}
+				s.Run.Count("prologue:prefix-shrink-then-hand-off")
+				s.afterChange(members)
+			}
+		}
+	}
 	for i := 0; i < steps && !s.Dead; i++ {
 		switch x := rng.Intn(100); {
 		case x < 62:
